@@ -30,7 +30,7 @@ class Infra(Exception):
 
 def go_env():
     e = dict(os.environ)
-    e["GOFLAGS"] = "-mod=mod"
+    e["GOFLAGS"] = "-mod=mod -p=%d" % max(2, NCPU // 4)
     e["GOPROXY"] = "off"
     e.setdefault("GOTOOLCHAIN", "auto")
     if e.get("GOTOOLCHAIN") == "auto":
@@ -217,15 +217,16 @@ class Ctx:
             module = cfg[:-4]
         if not os.path.exists(os.path.join(rundir, module + ".tla")):
             raise Infra("no module %s.tla for cfg %s" % (module, cfg))
-        java = ["java", "-XX:+UseParallelGC", "-Xmx" + heap, "-Xss64m"]
+        if workers is None:
+            workers = 1 if (dfs or simulate) else max(2, NCPU // 4)
+        # keep each JVM's helper threads (GC, JIT) proportional to its TLC workers: many checks run side by side
+        java = ["java", "-XX:+UseParallelGC", "-XX:ActiveProcessorCount=%d" % max(2, int(workers)), "-Xmx" + heap, "-Xss64m"]
         if dfs:
             java.append("-Dtlc2.tool.queue.IStateQueue=StateDeque")
         for k, v in (props or {}).items():
             java.append("-D%s=%s" % (k, v))
         java += ["-cp", TLA_CP, "tlc2.TLC"]
         args = java + ["-config", cfg, "-metadir", os.path.join(rundir, "meta"), "-noGenerateSpecTE"]
-        if workers is None:
-            workers = 1 if (dfs or simulate) else max(2, NCPU // 4)
         args += ["-workers", str(workers)]
         if simulate:
             args += ["-simulate", simulate]
